@@ -13,7 +13,8 @@ from harness.props import c09
 
 ID = "C16"
 REQUIRED_THEOREMS = ["elems_strip", "findAll_strip", "findFirst_strip", "matches_setNs", "findAll_spelling",
-                     "history_independent", "after_any_sequence"]
+                     "history_independent", "after_any_sequence", "stripRendering", "load_ignores_comments",
+                     "findAll_inNs", "findDescendant_inNs", "nsRendering", "load_ignores_namespace_convention"]
 RULE = ("requests `loadseq <root> ((prefix nsmap tree) ...)`: the loads are performed one after the other in one process; "
         "each document is rendered by an independent writer in the spellings {prefix xtce, prefix of another name, default "
         "namespace, no namespace (with and without an unrelated xsi declaration)} x comments in every list-like element x "
